@@ -21,6 +21,19 @@ def main(argv):
     path = argv[0]
     rec = json.load(open(path))
     values = O._unjson(rec["values"])
+    hs = (rec.get("concrete_replay") or {}).get("hashseeds")
+    if hs:
+        # a violation that shows only between fresh processes with different string-hash seeds
+        a = O.replay_subprocess(rec["harness"], rec["params"], values, hashseed=hs[0])
+        b = O.replay_subprocess(rec["harness"], rec["params"], values, hashseed=hs[1])
+        same = a.get("ok") is True and b.get("ok") is True and a.get("obs") == b.get("obs") and a.get("hobs") == b.get("hobs")
+        print(json.dumps({"property": rec.get("property"), "obligation": rec.get("obligation"), "values": rec["values"], "hashseeds": hs,
+                          "first": a, "second": b}, indent=1)[:6000])
+        if same:
+            print("does not reproduce: both hash seeds give the same outcome now")
+            return 0
+        print(f"VIOLATION property={rec.get('property')} replay={path}")
+        return 1
     res = O.run_concrete(rec["harness"], rec["params"], values, "text")
     print(json.dumps({"property": rec.get("property"), "obligation": rec.get("obligation"), "values": rec["values"], "result": res}, indent=1)[:6000])
     if res.get("ok") is True:
